@@ -278,59 +278,177 @@ def gate_stub(gates):
 
 
 # ---------------------------------------------------------------------------------
-# Executor.map contract stub (DESIGN C10/H2)
+# concurrent.futures contract stub (DESIGN C10/H2)
 # ---------------------------------------------------------------------------------
+import collections
+
+FIRST_COMPLETED = "FIRST_COMPLETED"
+FIRST_EXCEPTION = "FIRST_EXCEPTION"
+ALL_COMPLETED = "ALL_COMPLETED"
+DoneAndNotDoneFutures = collections.namedtuple("DoneAndNotDoneFutures", "done not_done")
+_SEQ = [0]
+
+
+class Future:
+    """documented surface of concurrent.futures.Future that is meaningful here"""
+
+    def __init__(self, executor, fn, args, kwargs):
+        self._executor, self._fn, self._args, self._kwargs = executor, fn, args, kwargs
+        self._done = False
+        self._result = None
+        self._exception = None
+        self._callbacks = []
+        self._seq = None             # position in the global completion order
+
+    def _run(self):
+        try:
+            self._result = self._fn(*self._args, **self._kwargs)
+        except Exception as e:       # noqa: stored, re-raised by result()
+            self._exception = e
+        self._done = True
+        _SEQ[0] += 1
+        self._seq = _SEQ[0]
+        for cb in self._callbacks:
+            cb(self)
+
+    def done(self):
+        return self._done
+
+    def running(self):
+        return False
+
+    def cancel(self):
+        return False
+
+    def cancelled(self):
+        return False
+
+    def result(self, timeout=None):
+        self._executor._run_until(lambda: self._done)
+        if self._exception is not None:
+            raise self._exception
+        return self._result
+
+    def exception(self, timeout=None):
+        self._executor._run_until(lambda: self._done)
+        return self._exception
+
+    def add_done_callback(self, fn):
+        if self._done:
+            fn(self)
+        else:
+            self._callbacks.append(fn)
+
+
 class _OrderedExecutor:
-    """Documented contract of concurrent.futures.Executor.map: the calls fn(*args) are
-    submitted eagerly, may RUN in any order (here: the order `perm`, on the calling
-    thread, at the latest when the executor is shut down), and the returned iterator
-    YIELDS the results in submission order."""
+    """Documented contract of concurrent.futures.Executor (submit / map / shutdown /
+    context manager) without real concurrency.  A submitted task may run at any time
+    between its submission and the moment its result is needed; tasks that are pending
+    together run in an arbitrary relative order.  Model: tasks run on the calling thread;
+    when a result is first needed (Future.result, iteration over map() results,
+    as_completed, wait, shutdown) the tasks pending at that moment are put into a run
+    queue in an order given by `chooser` (solver-chosen permutation), and the queue is
+    executed only as far as needed (the rest stays pending until the next need or the
+    shutdown).  Completion order == run order.  map() yields in SUBMISSION order,
+    as_completed() in COMPLETION order."""
     log = None
     chooser = None
 
     def __init__(self, *a, **kw):
-        self._pending = []
+        self._unordered = []         # submitted, run position not fixed yet
+        self._queue = []             # run order fixed, not run yet
+        self._shutdown = False
 
     def __enter__(self):
         return self
 
     def __exit__(self, *exc):
-        self.shutdown()
+        self.shutdown(wait=True)
         return False
 
+    def submit(self, fn, /, *args, **kwargs):
+        if self._shutdown:
+            raise RuntimeError("cannot schedule new futures after shutdown")
+        f = Future(self, fn, args, kwargs)
+        self._unordered.append(f)
+        return f
+
     def map(self, fn, *iterables, timeout=None, chunksize=1):
-        tasks = list(zip(*iterables))
-        slots = [None] * len(tasks)
-        self._pending.append((fn, tasks, slots))
+        fs = [self.submit(fn, *args) for args in zip(*iterables)]
 
         def results():
-            self._run_all()
-            for s in slots:
-                yield s[0]
+            for f in fs:
+                yield f.result()
         return results()
 
-    def shutdown(self, wait=True, **kw):
-        self._run_all()
+    def shutdown(self, wait=True, cancel_futures=False):
+        self._shutdown = True
+        self._run_until(lambda: False)
 
-    def _run_all(self):
-        for fn, tasks, slots in self._pending:
-            if tasks and slots[0] is None:
-                perm = type(self).chooser(len(tasks))
-                type(self).log.append(tuple(perm))
-                for i in perm:
-                    slots[i] = (fn(*tasks[i]),)
-        self._pending = []
+    # -- scheduling ---------------------------------------------------------------
+    def _step(self):
+        """run one pending task; False if nothing is pending"""
+        if not self._queue and self._unordered:
+            batch, self._unordered = self._unordered, []
+            perm = tuple(type(self).chooser(len(batch)))
+            assert sorted(perm) == list(range(len(batch)))
+            type(self).log.append(perm)
+            self._queue = [batch[i] for i in perm]
+        if not self._queue:
+            return False
+        self._queue.pop(0)._run()
+        return True
+
+    def _run_until(self, cond):
+        while not cond():
+            if not self._step():
+                break
+
+
+def as_completed(fs, timeout=None):
+    """yields the futures in completion order (already finished ones first)"""
+    fs = list(dict.fromkeys(fs))
+    pending = [f for f in fs if not f.done()]
+    for f in sorted((f for f in fs if f.done()), key=lambda f: f._seq):
+        yield f
+    while pending:
+        if not pending[0]._executor._step():
+            raise RuntimeError("future can never complete")
+        for f in sorted((f for f in pending if f.done()), key=lambda f: f._seq):
+            pending.remove(f)
+            yield f
+
+
+def wait(fs, timeout=None, return_when=ALL_COMPLETED):
+    fs = list(dict.fromkeys(fs))
+
+    def satisfied():
+        if return_when == FIRST_COMPLETED:
+            return any(f.done() for f in fs)
+        if return_when == FIRST_EXCEPTION and any(f.done() and f._exception is not None for f in fs):
+            return True
+        return all(f.done() for f in fs)
+    while fs and not satisfied():
+        nxt = [f for f in fs if not f.done()][0]
+        if not nxt._executor._step():
+            break
+    return DoneAndNotDoneFutures({f for f in fs if f.done()}, {f for f in fs if not f.done()})
 
 
 def fake_concurrent(chooser):
     """module object to shadow the global `concurrent` of pt_tebd_backend.
-    chooser(k) -> run order (a permutation of range(k))"""
+    chooser(k) -> run order (a permutation of range(k)) of k tasks pending together"""
     log = []
     cls_t = type("ThreadPoolExecutor", (_OrderedExecutor,), {"log": log, "chooser": staticmethod(chooser)})
     cls_p = type("ProcessPoolExecutor", (_OrderedExecutor,), {"log": log, "chooser": staticmethod(chooser)})
-    fut = types.ModuleType("concurrent.futures (Executor.map contract stub)")
+    fut = types.ModuleType("concurrent.futures (contract stub)")
     fut.ThreadPoolExecutor = cls_t
     fut.ProcessPoolExecutor = cls_p
+    fut.Executor = _OrderedExecutor
+    fut.Future = Future
+    fut.as_completed = as_completed
+    fut.wait = wait
+    fut.FIRST_COMPLETED, fut.FIRST_EXCEPTION, fut.ALL_COMPLETED = FIRST_COMPLETED, FIRST_EXCEPTION, ALL_COMPLETED
     mod = types.ModuleType("concurrent (stub)")
     mod.futures = fut
     mod.log = log
